@@ -1754,9 +1754,10 @@ class Compiler:
         self._slots.add(name)
 
         # The filler reports its own position (see above)
-        orelse = template("__token = None") + template(
-            "SLOT(__stream, econtext.copy(), rcontext)",
-            SLOT=name)
+        orelse = template("__token = None") + self._merge_globals(
+            node, template(
+                "SLOT(__stream, econtext.copy(), rcontext)",
+                SLOT=name))
         test = ast.Compare(
             left=load(name),
             ops=[ast.Is()],
